@@ -149,6 +149,41 @@ def check_output(v, case, lazy_p, eager_p, llog, elog, out, K, ctx, use_dag, pre
         bad("dag:nodes-vs-reference", f"function nodes: extra={extra} missing={miss}", **w)
 
 
+def detached_evaluate(v, case, scratch, rng, explicit_defaults):
+    import gc
+
+    import cloudpickle
+
+    outs = [o for o in daggen.all_outputs(case)]
+    out = rng.choice(outs)
+    K = {r: f"v_{r}" for r in daggen.needed_roots(case, out)}
+    try:
+        exp = daggen.ref_eval(case, out, K, prefix="W")
+    except daggen.Missing:
+        return
+    norm = lambda x: tuple(x) if isinstance(x, (list, tuple)) else x  # noqa: E731
+    for how in ("pipeline-dropped", "pickled-before-evaluate"):
+        w = dict(case=daggen.describe(case), output=out, kwargs=K, how=how)
+        log = probes.new_log(scratch, f"lazyW{how}")
+
+        def make():
+            lp = daggen.build_pipeline(case, log=log, prefix="W", pipeline_kwargs={"lazy": True}, explicit_defaults=explicit_defaults)
+            return lp(out, **K)
+        try:
+            with quiet():
+                r = make()
+                gc.collect()
+                if how == "pickled-before-evaluate":
+                    r = cloudpickle.loads(cloudpickle.dumps(r))
+                got = r.evaluate()
+        except Exception as e:  # noqa: BLE001
+            v.bad(exc_sig(e, f"detached-evaluate/{how}"), f"evaluate() of a deferred result ({how}) raised {exc_msg(e)}", **w)
+            continue
+        v.count(f"detached_evaluations:{how}")
+        if norm(got) != norm(exp["value"]):
+            v.bad(f"value/detached-evaluate/{how}", f"evaluate()={got!r:.200}, eager value {exp['value']!r:.200}", **w)
+
+
 def after_failed_evaluate(v, case, scratch, rng, explicit_defaults):
     outs = [o for o in daggen.all_outputs(case)]
     out = rng.choice(outs)
@@ -309,6 +344,10 @@ def run_case(desc):
                     check_output(v, case, lazy_p, eager_p, llog, elog, out, K2, "intermediate", rng.random() < 0.5, cached=cached)
                 if isinstance(out, str) and len(daggen.needed_funcs(case, [out])) >= 2:
                     keys.append(daggen.signature(case) + "|" + out)
+            # the deferred result outlives the pipeline object that produced it (a helper returns only the result), or is
+            # pickled before its first evaluation: evaluate() must still give the eager value
+            if i % 3 == 2:
+                detached_evaluate(v, case, scratch, rng, explicit_defaults=(i % 4 == 2))
             # a node whose function raised is not "evaluated": a second evaluate() of the same deferred object after a
             # transient fault must give the eager value, after a permanent fault it must raise again
             if i % 3 == 1:
